@@ -357,6 +357,17 @@ func splatFixed(run *hx.Run) {
 		{FDC: [3]float64{colBoundary, -colBoundary, 1e6}, Opacity: 800, Rot: [4]float64{1, -1, 1, -1}},
 		{FDC: [3]float64{-1e6, 0, 1.7724538509055159}, Opacity: -800, Rot: [4]float64{127.0 / 128, 255.0 / 256, -127.0 / 128, 1.0 / 256}},
 	}}))
+	// opacities over the whole logit range, -8 .. 8 in steps of 1/4 (alpha bytes 0 .. 254): every splat must come
+	// back, in order, whatever its alpha byte is
+	var sweep []splatDesc
+	for k := -32; k <= 32; k++ {
+		sweep = append(sweep, splatDesc{Pos: [3]float64{float64(k), 1, 2}, Opacity: float64(k) / 4, Rot: [4]float64{0, 0, 0, 1}})
+	}
+	run.Add(splatCase(cloudDesc{Splats: sweep}))
+	run.Add(splatCase(cloudDesc{Splats: []splatDesc{{Opacity: -8, Rot: [4]float64{0, 0, 0, 1}}}}))
+	run.Add(splatCase(cloudDesc{Splats: []splatDesc{{Opacity: -6, Rot: [4]float64{0, 0, 0, 1}}, {Pos: [3]float64{1, 1, 1}, Opacity: 8, Rot: [4]float64{0, 0, 0, 1}},
+		{Pos: [3]float64{2, 2, 2}, Opacity: -7.5, Rot: [4]float64{0, 0, 0, 1}}}}))
+	run.Count("splat:opacity-sweep-8..8")
 	// a file and every kind of prefix of it
 	var buf bytes.Buffer
 	splat.Write(&buf, buildCloud(cloudDesc{Splats: all[:3]}))
